@@ -212,6 +212,10 @@ struct Res {
 
 fn scenario(ctx: &Ctx, out: &mut Outcome, rng: &mut Rng, idx: u64) {
     let local_backend = rng.chance(1, 3);
+    // a fifth of the scenarios run with an empty tenant prefix: the catalog's chunk paths then begin with '/'
+    // (unusual but valid; the object store sees them without the slash - the oracle compares normalised paths)
+    let tenant: &'static str = if rng.chance(1, 5) { "" } else { "t" };
+    let sc = move || cardinalsin::StorageConfig { provider: cardinalsin::CloudProvider::Memory, container: "verif".into(), tenant_id: tenant.into() };
     // (the last two: "keep for ever" settings whose nanosecond count does not fit an i64)
     let retention_days = *rng.pick(&[1u32, 1, 1, 90, 90, 36_500, 36_500, 200_000, u32::MAX]);
     // (the last two: "never collect" settings beyond what the date arithmetic can represent)
@@ -318,7 +322,7 @@ fn scenario(ctx: &Ctx, out: &mut Outcome, rng: &mut Rng, idx: u64) {
         };
         // dataset
         let seed_meta = mk_meta(&ctl, "seed");
-        let ing = Ingester::new(no_wal_ingester_config(), ctl.store("seed"), seed_meta.clone(), storage_config(), MetricSchema::default_metrics());
+        let ing = Ingester::new(no_wal_ingester_config(), ctl.store("seed"), seed_meta.clone(), sc(), MetricSchema::default_metrics());
         let mut next = idx as i64 * 100_000;
         for (_label, ts) in &plans2 {
             let rows: Vec<RowSpec> = ts
@@ -336,7 +340,7 @@ fn scenario(ctx: &Ctx, out: &mut Outcome, rng: &mut Rng, idx: u64) {
         let mut chunk_meta: BTreeMap<String, (i64, i64)> = BTreeMap::new();
         let mut local_history: Vec<(u64, i64, BTreeSet<String>)> = vec![];
         let snap = |local: Arc<LocalMetadataClient>| async move {
-            local.list_chunks().await.map(|v| v.into_iter().map(|e| (e.chunk_path, e.min_timestamp, e.max_timestamp)).collect::<Vec<_>>()).unwrap_or_default()
+            local.list_chunks().await.map(|v| v.into_iter().map(|e| (e.chunk_path.trim_start_matches('/').to_string(), e.min_timestamp, e.max_timestamp)).collect::<Vec<_>>()).unwrap_or_default()
         };
         if local_backend {
             let s = snap(local.clone()).await;
@@ -351,7 +355,8 @@ fn scenario(ctx: &Ctx, out: &mut Outcome, rng: &mut Rng, idx: u64) {
             let d = deletes.clone();
             let r = registry.clone();
             *ctl.on_delete.lock() = Some(Arc::new(move |p: &str| {
-                d.lock().push((p.to_string(), clock::wall_ns(), r.is_pinned(p)));
+                // (pinned under the catalog's spelling of the path - with or without the leading slash)
+                d.lock().push((p.to_string(), clock::wall_ns(), r.is_pinned(p) || r.is_pinned(&format!("/{}", p))));
             }));
         }
         let start = 0usize;
@@ -367,7 +372,7 @@ fn scenario(ctx: &Ctx, out: &mut Outcome, rng: &mut Rng, idx: u64) {
         ctl.set_match_faults(aimed2);
         ctl.set_gating(true);
         let monitor = Arc::new(ShardMonitor::new(HotShardConfig::default()));
-        let comp = Compactor::new(cfg2.clone(), ctl.store("comp"), mk_meta(&ctl, "comp"), storage_config(), monitor.clone()).with_pin_registry(registry.clone());
+        let comp = Compactor::new(cfg2.clone(), ctl.store("comp"), mk_meta(&ctl, "comp"), sc(), monitor.clone()).with_pin_registry(registry.clone());
         let ctl2 = ctl.clone();
         let comp_h = sim::spawn_actor("comp", async move {
             for c in 0..ncycles {
@@ -400,7 +405,7 @@ fn scenario(ctx: &Ctx, out: &mut Outcome, rng: &mut Rng, idx: u64) {
                 })
                 .collect();
             qhs.push(sim::spawn_actor(&name, async move {
-                let node = match QueryNode::new(query_config(), store, meta, storage_config()).await {
+                let node = match QueryNode::new(query_config(), store, meta, sc()).await {
                     Ok(n) => n.with_pin_registry(reg),
                     Err(e) => {
                         qr.lock().push(format!("query node: {e}"));
@@ -428,7 +433,7 @@ fn scenario(ctx: &Ctx, out: &mut Outcome, rng: &mut Rng, idx: u64) {
             let comp_done = comp_h.is_finished();
             if comp_done && restart && restarted.is_none() {
                 // what the old compactor persisted
-                if let Ok(g) = ctl.backing.get(&object_store::path::Path::from("t/metadata/pending-deletions.json")).await {
+                if let Ok(g) = ctl.backing.get(&object_store::path::Path::from(format!("{}/metadata/pending-deletions.json", tenant).as_str())).await {
                     if let Ok(b) = g.bytes().await {
                         if let Ok(v) = serde_json::from_slice::<Vec<Value>>(&b) {
                             for e in v {
@@ -443,7 +448,7 @@ fn scenario(ctx: &Ctx, out: &mut Outcome, rng: &mut Rng, idx: u64) {
                 clock::advance_wall((grace_jump_s as i64 + 5) * S);
                 ctl.mark("clock", "CLOCK", &format!("+{}s (before restart)", grace_jump_s + 5), "");
                 restart_clock_after_grace = grace_s <= 300;
-                let c2 = Compactor::new(cfg2.clone(), ctl.store("comp2"), mk_meta(&ctl, "comp2"), storage_config(), monitor.clone()).with_pin_registry(registry.clone());
+                let c2 = Compactor::new(cfg2.clone(), ctl.store("comp2"), mk_meta(&ctl, "comp2"), sc(), monitor.clone()).with_pin_registry(registry.clone());
                 // an operator removes one live chunk by hand on the new instance before its service loop
                 // starts (catalog removal, then the public schedule_deletion): a FRESH pending deletion sits
                 // in memory when run() merges the persisted, older ones
@@ -555,10 +560,10 @@ fn scenario(ctx: &Ctx, out: &mut Outcome, rng: &mut Rng, idx: u64) {
         for (seq, _a, payload, _m, _e) in committed_puts(&res.events, "catalog.json") {
             if let Ok(cat) = serde_json::from_slice::<MetadataCatalog>(&payload) {
                 for (p, c) in &cat.chunks {
-                    chunk_meta.insert(p.clone(), (c.base.min_timestamp, c.base.max_timestamp));
+                    chunk_meta.insert(p.trim_start_matches('/').to_string(), (c.base.min_timestamp, c.base.max_timestamp));
                 }
                 let wall = res.events.iter().find(|e| e.seq == seq).map(|e| e.wall_ns).unwrap_or(0);
-                history.push((seq, wall, cat.chunks.keys().cloned().collect()));
+                history.push((seq, wall, cat.chunks.keys().map(|k| k.trim_start_matches('/').to_string()).collect()));
             }
         }
     }
@@ -627,7 +632,7 @@ fn scenario(ctx: &Ctx, out: &mut Outcome, rng: &mut Rng, idx: u64) {
     for e in res.events.iter().filter(|e| !e.call && e.op == "META:delete_chunk" && e.actor.starts_with("comp") && e.result.starts_with("ok")) {
         retention_removals += 1;
         let cutoff = (e.wall_ns as i128 - retention_days as i128 * DAY as i128 - skew_ns as i128).clamp(i64::MIN as i128, i64::MAX as i128) as i64;
-        match chunk_meta.get(&e.path) {
+        match chunk_meta.get(e.path.trim_start_matches('/')) {
             Some((_mn, mx)) => {
                 if *mx > cutoff {
                     out.violation(
